@@ -30,7 +30,7 @@ def gen_case(rng, tier, idx):
     if idx % 4 == 1:
         # layered custom soils (often the same material at two bulk densities) with the table inside or just below the profile
         mode = "table"
-        prof.update({"gw": 1.0, "custom_soil_p": 1.0, "same_fc_layers_p": 0.6, "gw_depths": [0.3, 0.45, 0.55, 0.75, 0.95, 1.05, 1.2, 1.5, 2.0]})
+        prof.update({"gw": 1.0, "custom_soil_p": 1.0, "same_fc_layers_p": 0.7, "n_layers_choices": [2, 2, 3], "hyd_layer_p": 0.8, "gw_depths": [0.3, 0.45, 0.55, 0.75, 0.95, 1.05, 1.2, 1.5, 2.0]})
     case = std_case(rng, prof)
     if idx % 4 == 3:
         # the table jumps between a shallow and a deep regime inside the growing seasons, with rain on the day of the move
